@@ -84,6 +84,10 @@ def case(graph, nl, how, action, recursive):
                     elif action == 'add-one':
                         newk = os.path.join(os.path.dirname(keys['main.bean']) or '', 'newdir', 'new.bean') if how != 'bare' else 'new.bean'
                         files[newk] = ed._parser.parse('2000-01-01 open Assets:New' + nl, models.File); added.add(os.path.relpath(os.path.abspath(newk), root))
+                    elif action in ('add-empty', 'add-empty-parsed'):
+                        # a new entry whose model prints to the empty string still has to be created (as an empty file)
+                        newk = os.path.join(os.path.dirname(keys['main.bean']) or '', 'newdir', 'empty.bean') if how != 'bare' else 'empty.bean'
+                        files[newk] = models.File.from_children([]) if action == 'add-empty' else ed._parser.parse('', models.File); added.add(os.path.relpath(os.path.abspath(newk), root))
                     elif action == 'respell' and len(keys) > 1:
                         # remove an entry and put the (edited) model back under another spelling of the same path: the file must end up with the new content
                         rel = sorted(keys)[-1]; k = keys[rel]; model = files.pop(k)
@@ -119,7 +123,7 @@ def case(graph, nl, how, action, recursive):
         if raised:
             if after != before: return f'the block raised but files were touched: {[k for k in set(after) | set(before) if after.get(k) != before.get(k)]}'
             return None
-        for rel in set(before) | set(after):
+        for rel in set(before) | set(after) | added | removed:
             b, a = before.get(rel), after.get(rel)
             if rel in removed:
                 if a is not None: return f'{rel} was removed from the mapping but still exists'
@@ -153,9 +157,9 @@ def run(prop, tier, seed):
     for graph in GRAPHS:
         for nl in ('\n', '\r\n'):
             for how in ('absolute', 'relative', 'bare', 'dot', 'updown'):
-                for action in ('none', 'edit-all', 'edit-one', 'remove-one', 'add-one', 'respell', 'raise'):
+                for action in ('none', 'edit-all', 'edit-one', 'remove-one', 'add-one', 'add-empty', 'add-empty-parsed', 'respell', 'raise'):
                     for recursive in (True, False):
-                        if not recursive and (graph != 'single' or action in ('remove-one', 'add-one', 'respell')): continue
+                        if not recursive and (graph != 'single' or action in ('remove-one', 'add-one', 'add-empty', 'add-empty-parsed', 'respell')): continue
                         key = (graph, nl, how, action, recursive)
                         try: msg = case(*key)
                         except Exception: msg = 'driver error: ' + traceback.format_exc()[-600:]
